@@ -158,7 +158,7 @@ class C05:
     prop = "C05"
     level = "exploration"
     design_ref = "DESIGN.md 3.5"
-    tiers = {"quick": {"runs": 6000, "budget_s": 50, "chunk": 60, "twice_every": 30, "shrink_s": 30},
+    tiers = {"quick": {"runs": 40000, "budget_s": 80, "chunk": 150, "twice_every": 30, "shrink_s": 30},
              "thorough": {"runs": 600000, "budget_s": 840, "chunk": 200, "twice_every": 100, "shrink_s": 60}}
     rule = ("one run = 2-5 callers, each CobaRandom(seed_i) (int, float, str and boundary-state pre-image seeds) with a script of 2-8 calls "
             "(random/randoms/randint/randints/shuffle/choice/choicew/gauss/gausses incl. empty and singleton sequences, zero weights, "
